@@ -32,9 +32,11 @@ import (
 	"math/big"
 	mrand "math/rand"
 	"os"
+	"reflect"
 	"sort"
 	"strconv"
 	"strings"
+	"unicode/utf8"
 
 	"github.com/miekg/dns"
 
@@ -351,6 +353,7 @@ type event struct {
 	// check / verify
 	Sig      *rec   `json:"sig,omitempty"`
 	Forge    bool   `json:"forge"`
+	Rawtag   string `json:"rawtag"` // "" | "raw-utf8" | "raw-nonutf8": every name of the case is spelled with RAW octets >= 0x80 instead of \DDD
 	Spell    string `json:"spell"` // "" | "ddd-upper": owner names spelled with \DDD for capital letters (same octets)
 	KeyName  string `json:"keyname"`
 	Signer   string `json:"signer"` // "" | "ecdsa-short-r1" ...: how the signature was (or is to be) made
@@ -470,7 +473,45 @@ func goRR(a *wire.RR, spell string) dns.RR {
 	if spell == "ddd-upper" {
 		rr.Header().Name = dddUpper(rr.Header().Name)
 	}
+	if rawSpell {
+		rr.Header().Name = rawHigh(rr.Header().Name)
+		sv := reflect.ValueOf(rr).Elem()
+		for _, e := range L.FieldsOf(a.Type) {
+			if e.K == "name" || e.K == "cname" {
+				if fv := sv.FieldByName(e.N); fv.IsValid() && fv.Kind() == reflect.String {
+					fv.SetString(rawHigh(fv.String()))
+				}
+			}
+		}
+	}
 	return rr
+}
+
+// rawSpell: spell the names of every Go value built from now on with raw octets >= 0x80 (the Go API takes them: a name is a
+// string of octets) instead of \DDD escapes -- the same labels, another text.  Set per case (record) / per event (finish).
+var rawSpell bool
+
+func rawHigh(s string) string {
+	var sb strings.Builder
+	for i := 0; i < len(s); i++ {
+		if s[i] == '\\' && i+3 < len(s) && s[i+1] >= '0' && s[i+1] <= '9' && s[i+2] >= '0' && s[i+2] <= '9' && s[i+3] >= '0' && s[i+3] <= '9' {
+			v := int(s[i+1]-'0')*100 + int(s[i+2]-'0')*10 + int(s[i+3]-'0')
+			if v >= 128 && v <= 255 {
+				sb.WriteByte(byte(v))
+			} else {
+				sb.WriteString(s[i : i+4])
+			}
+			i += 3
+			continue
+		}
+		if s[i] == '\\' && i+1 < len(s) {
+			sb.WriteString(s[i : i+2])
+			i++
+			continue
+		}
+		sb.WriteByte(s[i])
+	}
+	return sb.String()
 }
 
 // dddUpper spells every capital letter of a presentation name as \DDD: the same octets, another text.
@@ -532,6 +573,28 @@ var zones = []name{
 	{[]byte("a.b"), []byte("Zone")}, // a dot inside a label
 }
 
+// zones whose labels hold octets >= 0x80: "\u00c9xample" (c3 89: a letter with an upper case for Unicode, none for DNS), the KELVIN
+// SIGN U+212A (e2 84 aa: Unicode folds it to ASCII k), and octets that are no UTF-8 at all
+var highZones = []struct {
+	z   name
+	tag string
+}{
+	{name{{0xC3, 0x89, 'x', 'a', 'm', 'p', 'l', 'e'}, []byte("Com")}, "raw-utf8"},
+	{name{{0xE2, 0x84, 0xAA, 'e', 'l', 'v', 'i', 'n'}, {0xC3, 0x96, 'r', 'g'}}, "raw-utf8"},
+	{name{{0xC9, 'x', 0xFF, 0x80}, []byte("Net")}, "raw-nonutf8"},
+}
+
+func asciiLower(l []byte) []byte {
+	out := make([]byte, len(l))
+	for i, c := range l {
+		if c >= 'A' && c <= 'Z' {
+			c += 32
+		}
+		out[i] = c
+	}
+	return out
+}
+
 var sigTypes = []int{1, 30, 2, 5, 6, 12, 15, 16, 33, 35, 17, 18, 21, 26, 36, 39, 14, 7, 8, 9, 3, 4, 13, 47, 48, 43, 28, 16, 15, 2}
 
 var labelPool = [][]byte{[]byte("www"), []byte("Mail"), []byte("nS1"), []byte("a"), []byte("B"), []byte("x y"), []byte("d.e"), {0xC8, 'q'}, []byte("_sip"),
@@ -542,7 +605,7 @@ type gen struct{ r *mrand.Rand }
 func (g *gen) label(mixed bool) []byte {
 	l := append([]byte{}, labelPool[g.r.Intn(len(labelPool))]...)
 	if !mixed {
-		l = []byte(strings.ToLower(string(l)))
+		l = asciiLower(l)
 	}
 	return l
 }
@@ -561,7 +624,7 @@ func (g *gen) nameUnder(z name, mixed bool) name {
 		} else if mixed {
 			n = append(n, l)
 		} else {
-			n = append(n, []byte(strings.ToLower(string(l))))
+			n = append(n, asciiLower(l))
 		}
 	}
 	return n
@@ -637,18 +700,26 @@ type caseT struct {
 	exp    uint32
 	mixed  bool
 	keyIdx int
+	rawtag string // "" or how the names of the case are spelled in Go strings (raw octets >= 0x80)
 }
 
 func (g *gen) newCase(i int) caseT {
 	c := caseT{}
 	c.zone = zones[g.r.Intn(len(zones))]
+	if i%8 == 5 || i%8 == 6 { // two cases in eight live in a zone with octets >= 0x80; one of them spells them raw
+		h := highZones[(i/8+int(hx.Seed()%1000))%len(highZones)]
+		c.zone = h.z
+		if i%8 == 5 {
+			c.rawtag = h.tag
+		}
+	}
 	c.mixed = g.r.Intn(2) == 0
 	g.r.Intn(3)
 	c.t = sigTypes[(i+16*int(hx.Seed()%1000)+int(hx.Seed()/1000))%len(sigTypes)] // three shards of 16 cover every type
 	lower := func(n name) name {
 		out := make(name, len(n))
 		for j, l := range n {
-			out[j] = []byte(strings.ToLower(string(l)))
+			out[j] = asciiLower(l)
 		}
 		return out
 	}
@@ -699,6 +770,26 @@ func (g *gen) newCase(i int) caseT {
 		c.inc, c.exp = 0, 0
 	default:
 		c.inc, c.exp = 1700000000, 2000000000
+	}
+	if c.rawtag == "raw-utf8" { // every label of the case must then be valid UTF-8: the others belong to the raw-nonutf8 cases
+		fix := func(n name) name {
+			out := make(name, len(n))
+			for j, l := range n {
+				if utf8.Valid(l) {
+					out[j] = l
+				} else {
+					out[j] = []byte{0xC3, 0x89, 'q', 0xE2, 0x84, 0xAA} // \u00c9 q KELVIN SIGN
+				}
+			}
+			return out
+		}
+		c.owner = fix(c.owner)
+		for i := range c.rrset {
+			c.rrset[i].Name = toB(fix(hxName(c.rrset[i].Name)))
+			for _, fn := range nameFieldsOf(c.rrset[i].Type) {
+				c.rrset[i].F[fn] = anyName(fix(nameOf(c.rrset[i].F[fn])))
+			}
+		}
 	}
 	return c
 }
@@ -869,6 +960,7 @@ func keyFromRdata(b []byte, tmpl *rec) *rec {
 // ------------------------------------------------------------------ record
 
 type recorder struct {
+	rawtag string
 	w      *hx.Writer
 	id     int
 	sum    *hx.Summary
@@ -877,6 +969,7 @@ type recorder struct {
 }
 
 func (rc *recorder) emit(e *event) int {
+	e.Rawtag = rc.rawtag
 	rc.id++
 	e.Id = rc.id
 	if e.Rrset == nil {
@@ -925,6 +1018,9 @@ func record(out, keysPath string, n int, algs []string, flipEvery, only int) {
 }
 
 func (rc *recorder) one(ci int, c *caseT, alg string, privs map[string]crypto.Signer, r *mrand.Rand, flips bool) {
+	rawSpell = c.rawtag != ""
+	rc.rawtag = c.rawtag
+	defer func() { rawSpell = false }()
 	an := algByName[alg]
 	priv := privs[alg]
 	pub := pubToWire(priv.Public())
@@ -1187,6 +1283,23 @@ func (rc *recorder) variants(of, ci int, c *caseT, alg string, privs map[string]
 		b[r.Intn(len(b))] ^= 1 << uint(r.Intn(8))
 		s.F["Signature"] = anyBytes(b)
 	})
+	for _, how := range []string{"zero-appended", "octet-appended", "doubled", "zero-prepended"} {
+		how := how
+		alt("signature-extended", func(s *rec) { // over-long: the primitive's signature followed / preceded by more octets
+			b := bytesOf(s.F["Signature"])
+			switch how {
+			case "zero-appended":
+				b = append(b, 0)
+			case "octet-appended":
+				b = append(b, byte(1+r.Intn(255)), byte(r.Intn(256)))
+			case "doubled":
+				b = append(b, b...)
+			case "zero-prepended":
+				b = append([]byte{0}, b...)
+			}
+			s.F["Signature"] = anyBytes(b)
+		})
+	}
 	alt("signature-truncated", func(s *rec) {
 		b := bytesOf(s.F["Signature"])
 		s.F["Signature"] = anyBytes(b[:len(b)-1])
@@ -1342,6 +1455,17 @@ func finish(eventsPath, emitPath, keysPath, verifyPath string) {
 			hx.Die("event %d has no emitted record from pass 1", e.Id)
 		}
 		brief := map[string]interface{}{"id": e.Id, "case": e.Case, "kind": e.Kind, "algname": e.Alg}
+		rawSpell = e.Rawtag != ""
+		rawSfx := ""
+		if rawSpell {
+			rawSfx = ":" + e.Rawtag
+		}
+		misKey := func(clause, tail string) string { // as Trace_Dnssec!K
+			if e.Rawtag == "raw-nonutf8" {
+				return clause + ":raw-nonutf8"
+			}
+			return clause + ":" + tail + rawSfx
+		}
 		switch e.Ev {
 		case "sign":
 			osig[e.Id] = hx.B{}
@@ -1354,10 +1478,10 @@ func finish(eventsPath, emitPath, keysPath, verifyPath string) {
 			// (1) the real signature must be a signature of the octets the specification prescribes
 			if !stdVerify(intOf(e.Out.F["Algorithm"]), bytesOf(e.Key.F["PublicKey"]), m.Data.Bytes(), bytesOf(e.Out.F["Signature"])) {
 				if e.Signer != "" {
-					sum.Mis("dnssec/sign-signature-encoding:"+e.Kind,
+					sum.Mis(misKey("dnssec/sign-signature-encoding", e.Kind),
 						"the standard library rejects the signature Sign made from a "+e.Signer+" primitive signature (fixed-width encoding of integers with leading zero octets)", brief)
 				} else {
-					sum.Mis("dnssec/sign-not-over-canonical-octets:"+m.Feature,
+					sum.Mis(misKey("dnssec/sign-not-over-canonical-octets", m.Feature),
 						"the standard library rejects the signature made by Sign over the RFC 4034 s.3.1.8.1 octets of the specification", brief)
 				}
 			}
